@@ -439,3 +439,185 @@ ORACLES = {
     "C13": oracle_C13,
     "C18": oracle_C18,
 }
+
+
+# ------------------------------------------------------------------------------ SQL: C02 / C08 / C11
+def _sql_pairs(ctx: Ctx):
+    for k, c in enumerate(ctx.cmds):
+        if c[0] == "sqlexec":
+            sem = None
+            if k + 1 < len(ctx.cmds) and ctx.cmds[k + 1][0] == "sem" and ctx.cmds[k + 1][1] == c[1]:
+                sem = ctx.model[k + 1]
+            yield k, c[1], ctx.impl[k], ctx.model[k], sem
+
+
+def _ms(text: str):
+    return sorted(proto.show_row_dict(r) for r in parse_rows(text))
+
+
+def sql_correspondence(ctx: Ctx, stats: Stats, cmds):
+    """Model-vs-implementation comparison of `sqlexec` lines (multiset / order aware)."""
+    diffs = []
+    for k, name, il, ml, sem in _sql_pairs(ctx):
+        if ml.startswith("unspecified"):
+            continue
+        if il.startswith("err compile") or ml.startswith("err compile"):
+            if il != ml:
+                diffs.append((k, cmds[k], il, ml))
+            continue
+        if il.startswith("err database") or ml.startswith("err database"):
+            if not (il.startswith("err database") and ml.startswith("err database")):
+                diffs.append((k, cmds[k], il, ml))
+            continue
+        if il.startswith("bad-") or ml.startswith("bad-"):
+            if il != ml:
+                diffs.append((k, cmds[k], il, ml))
+            continue
+        rows0, rows1, mrows = field(il, "rows0"), field(il, "rows1"), field(ml, "rows")
+        det, total = field(ml, "det"), field(ml, "total")
+        if det == "T":
+            if not (_ms(rows0) == _ms(mrows) == _ms(rows1)):
+                diffs.append((k, cmds[k], il, ml))
+                continue
+        if det == "T" and total == "T":
+            if not (rows0 == mrows == rows1):
+                diffs.append((k, cmds[k], il, ml))
+    return diffs
+
+
+def oracle_C02(cmds, impl, model, stats: Stats):
+    ctx = Ctx(cmds, impl, model)
+    out = []
+    stats.corr_diffs = getattr(stats, "corr_diffs", []) + sql_correspondence(ctx, stats, cmds)
+    for k, name, il, ml, sem in _sql_pairs(ctx):
+        m = ctx.meta.get(name)
+        if m is None or sem is None or not il.startswith("ok rows0"):
+            continue
+        kinds = {kd for kd, _ in tree_nodes(m["tree"])}
+        det = field(ml, "det") if ml.startswith("ok ") else "?"
+        kd = field(sem, "kd")
+        tags = sorted(x for x in kinds if x != "select")
+        if det != "T" or kd != "T":
+            stats.note(m["tree_text"], False, "indeterminate" if det != "T" else "not-key-determined")
+            continue
+        rows0, rows1, want = field(il, "rows0"), field(il, "rows1"), field(sem, "rows")
+        stats.note(m["tree_text"] + rows0, len(kinds - {"leaf", "select"}) >= 2 and rows0 != "[]", *tags)
+        for label, got in (("default scan order", rows0), ("reversed scan order", rows1)):
+            if _ms(got) != _ms(want):
+                kind = "sql-rows-differ-from-direct-evaluation"
+                if "b:join" in kinds:
+                    kind += ":join"
+                out.append(Violation("C02", kind,
+                                     f"{name} ({label}): database returned {got}, direct evaluation gives {want}; "
+                                     f"tree {m['tree_text']}"))
+                break
+    return out
+
+
+DOCUMENTED_SQL_ERRORS = {"err compile EngineError"}
+
+
+def has_nested_compound(t) -> bool:
+    """Some chain node has an operand Select that directly wraps another chain."""
+    for kd, n in tree_nodes(t, into_skip=True):
+        if kd == "b:chain":
+            for operand in (n[3], n[4]):
+                if isinstance(operand, list) and operand and operand[0].startswith("select") and operand[-3] == "T":
+                    return True
+    return False
+
+
+def oracle_C08(cmds, impl, model, stats: Stats):
+    ctx = Ctx(cmds, impl, model)
+    out = []
+    stats.corr_diffs = getattr(stats, "corr_diffs", []) + sql_correspondence(ctx, stats, cmds)
+    for k, c in enumerate(ctx.cmds):
+        il = impl[k]
+        if c[0] == "sqlexec":
+            m = ctx.meta.get(c[1])
+            if m is None:
+                continue
+            kinds = sorted({kd for kd, _ in tree_nodes(m["tree"], into_skip=True)} - {"select", "leaf"})
+            if il.startswith("ok "):
+                stats.note(m["tree_text"], len(kinds) >= 2, "sql:ok", *kinds)
+                continue
+            if il in DOCUMENTED_SQL_ERRORS:
+                stats.note(m["tree_text"], False, "sql:needs-processor")
+                continue
+            if il.startswith("err "):
+                phase, err = il.split()[1], il.split()[2]
+                stats.note(m["tree_text"], True, f"sql:{phase}-error")
+                shape = "+".join(kinds)
+                kind = f"accepted-tree-fails:{phase}:{err.split(':')[0]}"
+                if model[k].startswith("unspecified duplicate-from-names"):
+                    kind += ":duplicate-from-name"
+                elif phase == "database" and has_nested_compound(m["tree"]):
+                    kind += ":nested-compound"
+                out.append(Violation("C08", kind, f"{c[1]}: {il}; shape {shape}; tree {m['tree_text']}"))
+        elif c[0] == "exec":
+            m = ctx.meta.get(c[1])
+            if m is None:
+                continue
+            kinds = sorted({kd for kd, _ in tree_nodes(m["tree"])} - {"leaf"})
+            if il.startswith("ok rows"):
+                stats.note(m["tree_text"], len(kinds) >= 2, "iter:ok", *kinds)
+            elif il.startswith("err EngineError"):
+                stats.note(m["tree_text"], False, "iter:documented-refusal")
+            elif il.startswith("err ") or il.startswith("ok exec err"):
+                err = il.split()[-1]
+                out.append(Violation("C08", f"accepted-tree-fails:iteration:{err}",
+                                     f"{c[1]}: {il}; tree {m['tree_text']}"))
+        elif c[0] in ("apply", "join", "chain", "mat", "transfer") and il.startswith("err "):
+            err = il.split()[1]
+            if err in ("KeyError", "NotImplementedError", "AssertionError", "AttributeError", "ValueError"):
+                # internal error at construction time (slices raise ValueError only for invalid bounds,
+                # which the generators of this property never request)
+                out.append(Violation("C08", f"construction-internal-error:{err}", f"{cmds[k]}"))
+    return out
+
+
+def oracle_C11(cmds, impl, model, stats: Stats):
+    ctx = Ctx(cmds, impl, model)
+    out = []
+    stats.corr_diffs = getattr(stats, "corr_diffs", []) + sql_correspondence(ctx, stats, cmds)
+    for k, name, il, ml, sem in _sql_pairs(ctx):
+        m = ctx.meta.get(name)
+        if m is None or sem is None or not il.startswith("ok rows0") or not ml.startswith("ok rows"):
+            continue
+        det, total, kd = field(ml, "det"), field(ml, "total"), field(sem, "kd")
+        t = m["tree"]
+        has_sort = t[0].startswith("select") and len(t[1]) > 1
+        has_slice = t[0].startswith("select") and (t[4] != "0" or t[5] != "-")
+        tags = ["sorted" if has_sort else "unsorted", "sliced" if has_slice else "unsliced",
+                "total" if total == "T" else "not-total", "det" if det == "T" else "indeterminate"]
+        stats.note(m["tree_text"] + il, has_sort, *tags)
+        if kd != "T" or det != "T":
+            continue
+        rows0, rows1, want = field(il, "rows0"), field(il, "rows1"), field(sem, "rows")
+        if total == "T":
+            for label, got in (("default scan order", rows0), ("reversed scan order", rows1)):
+                if got != want:
+                    out.append(Violation("C11", "sorted-result-not-in-order",
+                                         f"{name} ({label}): database returned {got}, the sort order is {want}; "
+                                         f"tree {m['tree_text']}"))
+                    break
+        elif _ms(rows0) != _ms(want) or _ms(rows1) != _ms(want):
+            out.append(Violation("C11", "slice-of-sorted-relation-wrong-rows",
+                                 f"{name}: database returned {rows0} / {rows1}, expected rows {want}; "
+                                 f"tree {m['tree_text']}"))
+    # refusal: a sort without a slice must not be buried silently
+    for k, c in enumerate(ctx.cmds):
+        if c[0] in ("join", "chain", "mat") and impl[k].startswith("ok "):
+            operands = [c[2]] if c[0] == "mat" else [c[2], c[3]]
+            for o in operands:
+                mo = ctx.meta.get(o)
+                if mo is None or mo["eng"] != ctx.meta[c[1]]["eng"]:
+                    continue
+                t = mo["tree"]
+                if t[0].startswith("select") and len(t[1]) > 1 and t[4] == "0" and t[5] == "-":
+                    out.append(Violation("C11", "sort-silently-buried",
+                                         f"{cmds[k]}: operand {o} carries a sort without a slice: {mo['tree_text']}"))
+    return out
+
+
+ORACLES.update({"C02": oracle_C02, "C08": oracle_C08, "C11": oracle_C11})
